@@ -69,6 +69,11 @@ func (env *SpecEnv) bindParamsTypesOnly(fn *ssa.Function) {
 }
 
 func (env *SpecEnv) pkg() *types.Package {
+	if env.spec != nil && env.spec.FilePkg != "" {
+		if sp, ok := env.ex.w.SPkgs[env.spec.FilePkg]; ok {
+			return sp.Pkg
+		}
+	}
 	if env.fn != nil {
 		if env.fn.Pkg != nil {
 			return env.fn.Pkg.Pkg
@@ -106,6 +111,8 @@ func (env *SpecEnv) resolveType(s string) types.Type {
 		return types.Typ[types.Uint32]
 	case "any":
 		return types.NewInterfaceType(nil, nil)
+	case "func":
+		return types.NewSignatureType(nil, nil, nil, nil, nil, false)
 	}
 	if strings.HasPrefix(s, "*") {
 		if t := env.resolveType(s[1:]); t != nil {
@@ -208,6 +215,13 @@ func (env *SpecEnv) eval(x Expr) Val {
 				return Val{T: app("f_neg", v.T), S: sF, GoT: v.GoT}
 			}
 			return intVal("(- " + v.T + ")")
+		case "*":
+			if v.GoT != nil {
+				if p, ok := v.GoT.Underlying().(*types.Pointer); ok {
+					return env.loadRef(v.T, p.Elem())
+				}
+			}
+			return env.fail("cannot dereference %s", exprString(x.X))
 		}
 	case EBin:
 		return env.binary(x)
@@ -246,6 +260,9 @@ func (env *SpecEnv) ident(name string) Val {
 			return g
 		}
 	}
+	if g, ok := e.ss.GhostVars[name]; ok && env.st != nil {
+		return env.ghostVar(g)
+	}
 	// package-level object
 	if pkg := env.pkg(); pkg != nil {
 		if o := pkg.Scope().Lookup(name); o != nil {
@@ -272,6 +289,26 @@ func (env *SpecEnv) ident(name string) Val {
 		}
 	}
 	return env.fail("unresolved name %q in contract of %s", name, env.fnName())
+}
+
+// ghostVar: a specification-only global variable (a total map), kept in the
+// ghost heap G$<name>.
+func (env *SpecEnv) ghostVar(g GhostDecl) Val {
+	e := env.ex
+	denv := *env
+	denv.fn = nil
+	denv.spec = &FuncSpec{Pkg: g.Init}
+	t := denv.resolveType(g.Type)
+	if t == nil {
+		return env.fail("ghostvar %s: unknown type %s", g.Name, g.Type)
+	}
+	name := "G$" + g.Name
+	sort := e.ctx.sortOf(t)
+	if mt, ok := t.Underlying().(*types.Map); ok {
+		sort = arraySort(e.ctx.sortOf(mt.Key()), e.ctx.sortOf(mt.Elem()))
+	}
+	e.regHeap(name, sort, nil, 'g', "")
+	return Val{T: e.heapTerm(env.st, name), S: sort, GoT: t, Ghost: true}
 }
 
 func (env *SpecEnv) fnName() string {
@@ -416,6 +453,19 @@ func (env *SpecEnv) binary(x EBin) Val {
 		}
 		return boolVal(t)
 	case "<", "<=", ">", ">=":
+		if s == sStr {
+			e.ctx.declareFun("s_lt", []string{sStr, sStr}, sBool)
+			switch x.Op {
+			case "<":
+				return boolVal(app("s_lt", l.T, r.T))
+			case ">":
+				return boolVal(app("s_lt", r.T, l.T))
+			case "<=":
+				return boolVal(not(app("s_lt", r.T, l.T)))
+			default:
+				return boolVal(not(app("s_lt", l.T, r.T)))
+			}
+		}
 		if s == sF {
 			// mixed int/float literals
 			l, r = env.toF(l), env.toF(r)
@@ -574,6 +624,11 @@ func (env *SpecEnv) index(x EIndex) Val {
 		}
 		return env.fail("index on untyped value %s", exprString(x))
 	}
+	if v.Ghost {
+		if mt, ok := v.GoT.Underlying().(*types.Map); ok {
+			return Val{T: sel(v.T, i.T), S: e.ctx.sortOf(mt.Elem()), GoT: mt.Elem()}
+		}
+	}
 	switch u := v.GoT.Underlying().(type) {
 	case *types.Slice:
 		s := e.ctx.sortOf(u.Elem())
@@ -581,7 +636,7 @@ func (env *SpecEnv) index(x EIndex) Val {
 			return Val{T: "x", S: s, GoT: u.Elem()}
 		}
 		h := e.heapTerm(env.st, e.elemHeap(u.Elem()))
-		return Val{T: sel(sel(h, slRef(v.T)), add(slOff(v.T), i.T)), S: s, GoT: u.Elem()}
+		return Val{T: e.elemAt(h, u.Elem(), v.T, i.T), S: s, GoT: u.Elem()}
 	case *types.Map:
 		s := e.ctx.sortOf(u.Elem())
 		if env.typeOnly {
@@ -698,6 +753,9 @@ func (env *SpecEnv) callExpr(x ECall) Val {
 	case "off":
 		v := env.eval(x.Args[0])
 		return intVal(slOff(v.T))
+	case "update":
+		g, k, v := env.eval(x.Args[0]), env.eval(x.Args[1]), env.eval(x.Args[2])
+		return Val{T: sto(g.T, k.T, v.T), S: g.S, GoT: g.GoT, Ghost: g.Ghost}
 	case "ite":
 		c, a, b := env.eval(x.Args[0]), env.eval(x.Args[1]), env.eval(x.Args[2])
 		return Val{T: ite(c.T, a.T, b.T), S: a.S, GoT: a.GoT}
@@ -860,16 +918,12 @@ func (env *SpecEnv) evalLoc(x Expr) []heapLoc {
 	e := env.ex
 	switch x := x.(type) {
 	case ESel:
-		v := env.eval(x.X)
-		if v.GoT == nil {
-			env.fail("modifies: untyped %s", exprString(x))
-			return nil
-		}
-		p, ok := v.GoT.Underlying().(*types.Pointer)
-		if !ok {
+		v, okp := env.ptrTo(x.X)
+		if !okp {
 			env.fail("modifies: %s is not a field of a heap object", exprString(x))
 			return nil
 		}
+		p := v.GoT.Underlying().(*types.Pointer)
 		st := p.Elem().Underlying().(*types.Struct)
 		for i := 0; i < st.NumFields(); i++ {
 			if st.Field(i).Name() == x.Name {
@@ -895,8 +949,8 @@ func (env *SpecEnv) evalLoc(x Expr) []heapLoc {
 			}
 		case "entries":
 			if mt, ok := v.GoT.Underlying().(*types.Map); ok {
-				md, mv, mc := e.mapHeaps(mt)
-				return []heapLoc{{heap: md, ref: v.T}, {heap: mv, ref: v.T}, {heap: mc, ref: v.T}}
+				md, mv := e.mapHeaps(mt)
+				return []heapLoc{{heap: md, ref: v.T}, {heap: mv, ref: v.T}}
 			}
 		case "fields":
 			if p, ok := v.GoT.Underlying().(*types.Pointer); ok && isStruct(p.Elem()) {
@@ -910,6 +964,37 @@ func (env *SpecEnv) evalLoc(x Expr) []heapLoc {
 	}
 	env.fail("modifies: cannot interpret location %s", exprString(x))
 	return nil
+}
+
+// ptrTo returns a pointer to the struct denoted by x when x is a pointer, a
+// dereference, or an embedded struct field of a heap object.
+func (env *SpecEnv) ptrTo(x Expr) (Val, bool) {
+	if u, ok := x.(EUn); ok && u.Op == "*" {
+		v := env.eval(u.X)
+		if v.GoT != nil {
+			if _, ok := v.GoT.Underlying().(*types.Pointer); ok {
+				return v, true
+			}
+		}
+		return Val{}, false
+	}
+	if s, ok := x.(ESel); ok {
+		if base, ok := env.ptrTo(s.X); ok {
+			st := base.GoT.Underlying().(*types.Pointer).Elem().Underlying().(*types.Struct)
+			for i := 0; i < st.NumFields(); i++ {
+				if st.Field(i).Name() == s.Name && isStruct(st.Field(i).Type()) {
+					return Val{T: app("emb", base.T, num(int64(i))), S: sInt, GoT: types.NewPointer(st.Field(i).Type())}, true
+				}
+			}
+		}
+	}
+	v := env.eval(x)
+	if v.GoT != nil {
+		if p, ok := v.GoT.Underlying().(*types.Pointer); ok && isStruct(p.Elem()) {
+			return v, true
+		}
+	}
+	return Val{}, false
 }
 
 func (env *SpecEnv) allFields(ref string, t types.Type) []heapLoc {
